@@ -19,18 +19,27 @@ open JV Cli
 /-! ### option parsing -/
 
 /-- **options may appear anywhere**: for any command line made of positional arguments,
-negative numbers, the switches -j -J -o -q -s in either spelling and `-r VALUE` /
-`--reformation VALUE`, in any order and number, `from_parser` yields the options obtained
+negative numbers, the switches -j -J -o -q -s in either spelling and the reformation option in
+all its spellings (`-r VALUE`, `-rVALUE`, `-r=VALUE`, `--reformation VALUE`,
+`--reformation=VALUE`), in any order and number, `from_parser` yields the options obtained
 by applying the switches left to right and the positional arguments in their order -/
 theorem option_parsing (toks : List Tok) (hok : ∀ t ∈ toks, t.Ok) :
     parseCommand (toks.flatMap Tok.encode)
       = .run (toks.foldl Tok.apply {}) (toks.filterMap Tok.arg) :=
   parse_spec toks hok
 
+/-- **`--` ends option parsing**: what follows is positional whatever it looks like (so
+`julian -- -5` and `julian -- -j` pass `-5` / `-j` to `run` as arguments) -/
+theorem double_dash (toks : List Tok) (hok : ∀ t ∈ toks, t.Ok)
+    (vals : List (Bytes × String)) (hv : ∀ v ∈ vals, bytesToString? v.1 = some v.2) :
+    parseCommand (toks.flatMap Tok.encode ++ [45, 45] :: vals.map (·.1))
+      = .run (toks.foldl Tok.apply {}) (toks.filterMap Tok.arg ++ vals.map (·.2)) :=
+  parse_spec_dashdash toks hok vals hv
+
 /-- the calendar a token selects, if any -/
 def calOf : Tok → Option Calendar
   | .short .julian | .long .julian => some .julian
-  | .reformShort _ _ c | .reformLong _ _ c => some c
+  | .reformShort _ _ c | .reformLong _ _ c | .reformAttached _ _ _ c | .reformLongEq _ _ c => some c
   | _ => none
 
 theorem apply_calendar (o : Options) (t : Tok) :
